@@ -417,6 +417,16 @@ class MQWorld:
             import cv2
             ok, buf = cv2.imencode('.jpg', arr)
             return Frame.from_jpg(bytes(memoryview(buf)), data, h, w_, fmt)
+        layout = img.get('layout')
+        if layout == 'fortran':
+            arr = np.asfortranarray(arr)                 # F-contiguous memory, same logical pixels
+        elif layout == 'flipped':
+            arr = arr[::-1][::-1] if h > 1 else arr      # a view of a view: C-contiguous again but not owning its data
+            arr = arr[:, ::-1][:, ::-1]
+        elif layout == 'strided':
+            big = np.zeros((h, w_ * 2) + arr.shape[2:], np.uint8)
+            big[:, ::2] = arr
+            arr = big[:, ::2]                            # non-contiguous view
         if mode == 'ro':
             arr.flags.writeable = False
         return Frame(arr, data, fmt)
@@ -667,8 +677,31 @@ class MQWorld:
         self.outcomes[(nid, proc.inc)] = ('running', None)
         self.prepare_proc(proc, spec)
 
+        def api_main():
+            # a consumer that uses the MQ API directly (as tests and external tools do) with long receive time-outs,
+            # instead of Filter.loop_once's 100 ms polling
+            fl = P.mod('openfilter.filter_runtime.filter')
+            mqm = P.mod('openfilter.filter_runtime.mq')
+            srcs = [fl.Filter.parse_topics(render_source(self.sc, s0)) for s0 in spec.get('sources') or []]
+            mq = mqm.MQ(srcs, None, nid, outs_metrics=False)
+            st.filter = None
+            pat = spec.get('proc_ns') or [0]
+            to = spec.get('api_timeout_ms')
+            k = 0
+            while True:
+                frames = mq.recv(to)
+                if frames is None:
+                    continue
+                mid = mq.send_state.msg_id if mq.send_state is not None else None
+                self.ev('in', nid, proc.inc, k, mid, self.describe_frames(frames))
+                self.n_in += 1
+                self.sched.sleep_ns(max(pat[k % len(pat)], self.min_cpu_ns), 'process')
+                k += 1
+
         def main():
             self.ev('life', nid, proc.inc, 'run_enter')
+            if spec.get('api'):
+                return api_main()
             try:
                 cls.run(cfg, prop_exit=spec.get('prop_exit'), obey_exit=spec.get('obey_exit'),
                         loop_exc=spec.get('loop_exc'), stop_evt=stop_evt, sig_stop=False)
@@ -781,9 +814,25 @@ class MQWorld:
                 proc = self.live_proc(f['node'])
                 if proc is None or proc.exited:
                     return
-                self.stop_evts[proc].set()
+                self.stop_evts[proc].force_set()
                 self.fired('graceful_stop')
                 self.ev('fault', 'stop', f['node'])
+                ra = f.get('restart_after_ns')
+                if ra is not None:
+                    def maybe_restart():
+                        if not proc.exited and proc.alive:
+                            sched.after(5 * MS, maybe_restart)       # still shutting down
+                            return
+                        def restart():
+                            cur = self.live_proc(f['node'])
+                            if cur is None or cur.exited:
+                                if cur is not None:
+                                    cur.alive = False                # the old incarnation has left run(): it is gone
+                                self.start_node(f['node'])
+                                self.fired('graceful_restart')
+                                self.ev('fault', 'restart', f['node'])
+                        sched.after(ra, restart)
+                    sched.after(5 * MS, maybe_restart)
             self._at(f, do)
         elif kind == 'partition':
             def do():
